@@ -76,6 +76,52 @@ Theorem C16_get_card_refines :
 Proof. exact get_card_refines. Qed.
 Print Assumptions C16_get_card_refines.
 
+(* one API call of the model is the same call of the specification, outside the known classes
+   (all calls except swap_cards / walk_cards, which are covered by the theorems below and by the
+   correspondence run) *)
+Theorem C16_step_refines_partial :
+  forall m o,
+    known_class m o = false -> covered_op o = true ->
+    spec_step (to_rmod m) o = (to_rmod (fst (step m o)), abs_obs (snd (step m o))).
+Proof. exact step_refines_partial. Qed.
+Print Assumptions C16_step_refines_partial.
+
+(* replacing back restores the module *)
+Theorem C16_replace_back :
+  forall m idx x m1 old,
+    replace_card m idx x = ROk (m1, old) -> replace_card m1 idx old = ROk (m, x).
+Proof. exact replace_back. Qed.
+Print Assumptions C16_replace_back.
+
+(* a swap that fails (ancestor, invalid index) leaves the module unchanged: the restore path works *)
+Theorem C16_swap_fail_unchanged :
+  forall m a b m' e, swap_cards m a b = (m', SwErr e) -> m' = m.
+Proof. exact swap_fail_unchanged. Qed.
+Print Assumptions C16_swap_fail_unchanged.
+
+(* every call that reports an error is a no-op *)
+Theorem C16_failed_edit_unchanged :
+  forall m o,
+    match snd (step m o) with
+    | ObErr _ | ObSwapErr _ | ObChildErr _ => fst (step m o) = m
+    | _ => True
+    end.
+Proof. exact failed_edit_unchanged. Qed.
+Print Assumptions C16_failed_edit_unchanged.
+
+(* every (index, card) that walk_cards reports looks up to that same card, through both lookups *)
+Theorem C16_walk_complete_unique_partial :
+  forall m idx x,
+    In (idx, x) (walk_cards m) -> get_card_mut m idx = ROk x /\ get_card m idx = ROk x.
+Proof. exact walk_complete_unique_partial. Qed.
+Print Assumptions C16_walk_complete_unique_partial.
+
+(* the walk is the enumeration of iter_children *)
+Theorem C16_visit_children_unfold :
+  forall c id, visit_children c id = visit_list id (iter_children c) 0.
+Proof. exact visit_children_unfold. Qed.
+Print Assumptions C16_visit_children_unfold.
+
 (* the findings, as witnesses computed on the model *)
 Theorem C16_swap_same_refuted :
   exists m i, fst (step m (OpSwap i i)) <> m /\ snd (step m (OpSwap i i)) = ObUnit /\
